@@ -82,14 +82,21 @@ PUNCT_DENSE = model(4, 3, NMin=3, toks=(TOK_QUOTE, PLAIN), programs=[[ROOT_ATTAC
                     note='punctuation-only phrases')
 
 MODELS = {
-    'C12': {'quick': [model(5, 4, programs=[[ROOT_ATTACH]])],
+    'C12': {'quick': [model(5, 4, programs=[[ROOT_ATTACH]]),
+                      model(6, 3, NMin=6, programs=[[ROOT_ATTACH]],
+                            note='six tokens, two constituents: four root children, one of them discontinuous with '
+                                 'another root child in its gap, next to a third (sibling skipping past the focus node)')],
             'thorough': [model(5, 5, programs=[[ROOT_ATTACH], [ROOT_ATTACH, ROOT_ATTACH]]),
-                         model(6, 4, programs=[[ROOT_ATTACH]])]},
+                         model(6, 4, programs=[[ROOT_ATTACH]]),
+                         model(7, 3, NMin=7, programs=[[ROOT_ATTACH]], note='seven tokens, two constituents')]},
     'C05': {'quick': [model(4, 3, toks=(PLAIN, TOK_HD), edges=('--', 'HD'), programs=CROSS),
                       model(3, 2, toks=(PLAIN, TOK_HD, TOK_NK), edges=('--', 'HD', 'NK'), programs=CROSS[:1],
                             note='all three ranks of the NeGra heuristic (HD, NK, none)'),
                       model(4, 3, MaxChain=2, toks=(PLAIN, TOK_HD), edges=('--', 'HD'), programs=CROSS[:1],
-                            note='unary chains (a unary node over a discontinuous node)')],
+                            note='unary chains (a unary node over a discontinuous node)'),
+                      model(5, 3, NMin=5, toks=(PLAIN, TOK_HD), edges=('HD',), programs=CROSS[:1],
+                            note='five tokens, two constituents that are both marked as heads: a discontinuous head child '
+                                 'whose two blocks fall into ONE block of its discontinuous parent')],
             'thorough': [model(5, 3, toks=(PLAIN, TOK_HD), edges=('--', 'HD'), programs=CROSS[:1]),
                          model(4, 3, MaxChain=2, toks=(PLAIN, TOK_HD), edges=('--', 'HD'), programs=CROSS)]},
     'C13': {'quick': [model(4, 2, toks=(PLAIN, TOK_COMMA, TOK_QUOTE), programs=PUNCTP[:2] + PUNCTP[3:]),
